@@ -291,8 +291,9 @@ class Lin:
             inner = b[1].simplify(ranges)
             lo, hi = inner.interval(ranges)
             if b[0] == "mod":
-                if 0 <= lo and hi < b[2]:
-                    out = out.add(inner.scale(k))
+                q = lo // b[2]
+                if q * b[2] <= lo and hi < (q + 1) * b[2]:
+                    out = out.add(inner.add(Lin(-q * b[2])).scale(k))  # no wrap inside the range
                 else:
                     out = out.add(inner.mod(b[2]).scale(k))
             else:
@@ -334,8 +335,9 @@ def base_interval(b, ranges):
         return ranges.get(b, (0, 0xFFFF))
     if b[0] == "mod":
         lo, hi = b[1].interval(ranges)
-        if 0 <= lo and hi < b[2]:
-            return lo, hi
+        q = lo // b[2]
+        if q * b[2] <= lo and hi < (q + 1) * b[2]:
+            return lo - q * b[2], hi - q * b[2]
         return 0, b[2] - 1
     w = b[2]
     lo, hi = b[1].interval(ranges)
@@ -370,9 +372,12 @@ def lin_equal_witness(a, b, atom_ranges, limit=4096):
                 return ("equal", None)
     atoms = sorted(a.atoms() | b.atoms())
     cand = []
+    complete = True
     for at in atoms:
         lo, hi = atom_ranges.get(at, (0, 0xFFFF))
-        pts = {lo, hi, lo + 1, hi - 1, (lo + hi) // 2, (lo + hi) // 2 + 1}
+        if hi - lo > 6:
+            complete = False
+        pts = {lo, hi, lo + 1, hi - 1, (lo + hi) // 2, (lo + hi) // 2 + 1} | set(range(lo, min(hi, lo + 6) + 1))
         for k in (4, 7, 8, 12, 15, 16, 19, 20):
             for d in (-1, 0, 1):
                 pts.add((1 << k) + d)
@@ -381,6 +386,7 @@ def lin_equal_witness(a, b, atom_ranges, limit=4096):
     for c in cand:
         n *= len(c)
     if n > limit:
+        complete = False
         # thin out deterministically
         while n > limit:
             i = max(range(len(cand)), key=lambda j: len(cand[j]))
@@ -395,4 +401,6 @@ def lin_equal_witness(a, b, atom_ranges, limit=4096):
         env = dict(zip(atoms, vals))
         if a.eval(env) != b.eval(env):
             return ("differ", env)
+    if complete:
+        return ("equal", None)  # the (tiny) domain was enumerated completely on the two closed forms
     return ("unknown", None)
